@@ -58,6 +58,35 @@ def edge_points(ctx, rng, per_edge):
     return pts, len(edges)
 
 
+def azimuth_points(ctx):
+    """points due north / due south of each icosahedron face centre (the special-cased azimuths of
+    _geoAzDistanceRads) where that meridian leaves the face, a few metres on either side of the face edge and a few
+    1e-9..1e-7 rad off the meridian"""
+    a = ctx.c(["facecenters"], tag="fc")[0].split()
+    fc = [(bits2f(a[2 + 2 * i]), bits2f(a[3 + 2 * i])) for i in range(20)]
+    vs = [ll2v(*p) for p in fc]
+
+    def nearest(la, ln):
+        v = ll2v(la, ln)
+        return max(range(20), key=lambda i: vdot(v, vs[i]))
+    pts = []
+    for f, (la0, ln0) in enumerate(fc):
+        for sgn in (1.0, -1.0):
+            lo, hi = 0.0, 0.66
+            if abs(la0 + sgn * hi) > 1.55 or nearest(la0 + sgn * hi, ln0) == f:
+                continue
+            for _ in range(60):
+                mid = 0.5 * (lo + hi)
+                if nearest(la0 + sgn * mid, ln0) == f:
+                    lo = mid
+                else:
+                    hi = mid
+            for e in (0.0, 2e-8, -2e-8, 1e-7, -1e-7, 1e-6, -1e-6, 1e-4):
+                for dl in (0.0, 3e-9, -3e-9, 3e-8, -3e-8):
+                    pts.append((la0 + sgn * (lo + e), ln0 + dl))
+    return pts
+
+
 def _cells(ctx, rng, tier):
     cells = []
     maxfull = 2 if tier == "quick" else 4
